@@ -112,6 +112,13 @@ def ctx_barrier(ctx, r):
         ok, why = barrier_ok(arm["body"], "loop_stack")
         r.ob(ok, "typecheck.rs:generate_constraints_expr:TaskBlock:no-loop-barrier", TC, arm["l"],
              f"the TaskBlock arm does not push a `None` loop barrier around the task body ({why})", sample=f"TaskBlock: loop barrier ({why})")
+        # a task body has no enclosing function either: `?`/`return` must not see the enclosing function's return type
+        iso = any(x["k"] == "Call" and q.show(x["f"]).endswith("mem::take") and "func_ret_stack" in q.show(x["args"][0]) for x in q.walk(arm["body"])) and \
+            any(x["k"] == "Assign" and q.show(x["a"]).endswith(".func_ret_stack") for x in q.walk(arm["body"]))
+        pushes_ret = any(x["k"] == "MethodCall" and x["m"] == "push" and q.show(x["recv"]).endswith(".func_ret_stack") for x in q.walk(arm["body"]))
+        r.ob(iso or pushes_ret, "typecheck.rs:generate_constraints_expr:TaskBlock:enclosing-function-visible", TC, arm["l"],
+             "inside a task the checker still sees the enclosing function's return type (func_ret_stack is neither isolated nor given a new entry), so `?` in a task inside a function is accepted; the generator compiles a task as a top-level frame with an empty return stack and panics",
+             sample="TaskBlock: func_ret_stack isolated for the task body")
     # (3) loops push Some(id) and pop
     loops = 0
     for v in ("WhileLoop", "ForLoop"):
@@ -354,6 +361,19 @@ def call_sibling(ctx, r):
                      sample=f"FuncCall {'|'.join(vs)}: arguments taken from function_call_arg_order")
             break
     r.count("callee forms naming a declaration", n, 3, TB)
+    # the frame analyses walk the same argument list the generator compiles (defaults are spliced in by the checker)
+    items_tb = ctx.file_items(TB)
+    for name in ("collect_locals_expr", "collect_captures_expr"):
+        g = q.find_fn(items_tb, name, impl_ty="Translator") if items_tb else None
+        a = arm_of(g, "ExprKind", "FuncCall") if g else None
+        if a is None:
+            r.missing(f"{name}:FuncCall", TB)
+            continue
+        uses = any(x["k"] == "Field" and x["f"] == "function_call_arg_order" for x in q.walk(a["body"]))
+        loops = [x for x in q.walk(a["body"]) if x["k"] == "For" and "reordered" in q.show(x["e"]) and any(y["k"] == "MethodCall" and y["m"] == name for y in q.walk(x["body"]))]
+        r.ob(uses and bool(loops), f"translate_bytecode.rs:{name}:FuncCall:written-arguments-only", TB, a["l"],
+             f"{name} walks only the arguments written at the call; the generator compiles function_call_arg_order, which also contains default-value expressions, so locals (or captures) inside a default value have no slot in the calling frame",
+             sample=f"{name}: FuncCall arguments from function_call_arg_order")
     # the checker computes the order for each of them
     items = ctx.file_items(TC)
     cnt = sum(1 for x in q.walk({"k": "X", "items": []}) if False)
@@ -362,6 +382,65 @@ def call_sibling(ctx, r):
         if ff["k"] == "Fn" and ff.get("body") is not None:
             calls += sum(1 for x in q.walk(ff["body"]) if x["k"] == "Call" and x["f"]["k"] == "Path" and q.last_seg(x["f"]["p"]) == "calculate_func_call_order")
     r.count("checker call sites of calculate_func_call_order", calls, 3, TC)
+
+
+@rule("ARG-MISUSE", ["C18", "C04"], "every class of argument misuse has a diagnostic exit, and the reorder step never panics on a user-supplied name")
+def arg_misuse(ctx, r):
+    items = ctx.file_items(RES)
+    if items is None:
+        r.missing("resolve.rs")
+        return
+    f = q.find_fn(items, "calculate_func_call_order")
+    g = q.find_fn(items, "calculate_named_arg_order")
+    if f is None or g is None:
+        r.missing("calculate_func_call_order / calculate_named_arg_order", RES)
+        return
+
+    def pushes_error(node):
+        return any(x["k"] == "MethodCall" and x["m"] == "push" and q.show(x["recv"]).endswith(".errors") for x in q.walk(node))
+
+    # the per-argument loop
+    loops = [x for x in q.walk(f["body"]) if x["k"] == "For" and "args" in q.show(x["e"])]
+    if not loops:
+        r.missing("calculate_func_call_order:argument-loop", RES)
+        return
+    lp = loops[0]
+    top_if = next((x for x in q.body_stmts(lp["body"]) if x["k"] == "ExprStmt" and x["e"]["k"] == "If"), None)
+    named_branch = top_if["e"]["t"] if top_if else None
+    pos_branch = top_if["e"]["e"] if top_if else None
+    ok = named_branch is not None and any(x["k"] == "Call" and q.last_seg(q.show(x["f"])) in ("resolve_identifier", "resolve_symbol") for x in q.walk(named_branch))
+    r.ob(ok, "resolve.rs:calculate_func_call_order:unknown-name", RES, f["l"], "a named argument must be resolved against the callee's parameters (unknown names are reported by that lookup)", sample="named argument: resolved against the parameter table")
+    dup = named_branch is not None and any(x["k"] == "If" and "contains" in q.show(x["c"]) and pushes_error(x["t"]) for x in q.walk(named_branch))
+    r.ob(dup, "resolve.rs:calculate_func_call_order:duplicate-name", RES, f["l"], "a named argument given twice must be reported", sample="duplicate named argument: diagnostic")
+    # positional branch: after-named, in-range, surplus
+    chain = []
+    e = pos_branch
+    if e is not None and e["k"] == "Block" and len(e["stmts"]) == 1 and e["stmts"][0]["k"] == "ExprStmt":
+        e = e["stmts"][0]["e"]
+    while e is not None and e["k"] == "If":
+        chain.append((q.show(e["c"]), pushes_error(e["t"])))
+        e = e.get("e")
+    final_else = e
+    after_named = any("named_encountered" in c and err for c, err in chain)
+    r.ob(after_named, "resolve.rs:calculate_func_call_order:positional-after-named", RES, f["l"], "a positional argument after a named one must be reported", sample="positional after named: diagnostic")
+    surplus = final_else is not None and pushes_error(final_else)
+    r.ob(surplus, "resolve.rs:calculate_func_call_order:surplus-argument-dropped", RES, f["l"],
+         "a positional argument beyond the callee's parameters falls through without a diagnostic; calculate_named_arg_order then drops it silently (`g(1, 2)` for a one-parameter function is accepted)",
+         sample="surplus positional argument: diagnostic")
+    missing = any(x["k"] == "If" and "missing" in q.show(x["c"]) and pushes_error(x["t"]) and any(y["k"] == "Return" for y in q.walk(x["t"])) for x in q.walk(f["body"]))
+    r.ob(missing, "resolve.rs:calculate_func_call_order:missing-required", RES, f["l"], "missing required arguments must be reported and the call order not computed", sample="missing required argument: diagnostic, early return")
+    # the reorder step: the slot of a named argument comes from a non-panicking lookup of its name; positional -> its position; defaults fill only empty slots; read out in slot order
+    panicking = [x for x in q.walk(g["body"]) if x["k"] == "MethodCall" and x["m"] == "get_id" and "name" in q.show(x["args"][0])]
+    r.ob(not panicking, "resolve.rs:calculate_named_arg_order:panicking-name-lookup", RES, g["l"],
+         "calculate_named_arg_order looks a user-supplied argument name up with IdSet::get_id, which panics for a name the callee does not have (`f(b=2)` when every parameter of f has a default)",
+         sample="named argument slot: try_get_id(name)")
+    looks = any(x["k"] == "MethodCall" and x["m"] in ("try_get_id", "get_id") and "name" in q.show(x["args"][0]) for x in q.walk(g["body"]))
+    r.ob(looks, "resolve.rs:calculate_named_arg_order:slot-of-named", RES, g["l"], "the slot of a named argument must come from the lookup of its name in the parameter index")
+    dflt = [x for x in q.walk(g["body"]) if x["k"] == "For" and "default_args" in q.show(x["e"])]
+    only_empty = bool(dflt) and any(x["k"] == "If" and "is_none()" in q.show(x["c"]) and any(y["k"] == "Assign" for y in q.walk(x["t"])) for x in q.walk(dflt[0]["body"]))
+    r.ob(only_empty, "resolve.rs:calculate_named_arg_order:default-overwrites", RES, g["l"], "a default value may only fill a slot that is still empty", sample="defaults fill empty slots only")
+    flat = any(x["k"] == "MethodCall" and x["m"] == "flatten" for x in q.walk(g["body"]))
+    r.ob(flat, "resolve.rs:calculate_named_arg_order:slot-order", RES, g["l"], "the result must be read out in slot (declaration) order")
 
 
 # ----------------------------------------------------------------------------------------- TYPED-FALLBACK
